@@ -39,8 +39,9 @@ Lemma handle_loop_spec : forall fuel x c s rc acc, Inv c -> good c -> nonl (abs 
 Proof.
   induction fuel as [|f IH]; intros x c s rc acc H G Hn Hok D Hf; [lia|].
   cbn [handle_loop]. unfold do_output.
-  assert (Hu : used c < CBUF_MAXSIZE).
-  { destruct D as (_ & L & _). pose proof (partial_bound _ _ Hn L) as B. rewrite abs_length in B. lia. }
+  assert (Hu : used c < CBUF_MAXSIZE \/ stream_of s = []).
+  { destruct D as (_ & L & _). pose proof (partial_bound _ _ Hn L) as B. rewrite abs_length in B.
+    destruct B; [left; lia|right; auto]. }
   destruct (wfd_step c s H G Hu Hok) as (c1 & s1 & r & E & I1 & G1 & Ok1 & R). rewrite E.
   destruct r as [n nd| |].
   - (* data arrived *)
@@ -74,18 +75,23 @@ Proof.
 Qed.
 
 (* ---------- the whole stream ---------- *)
-Lemma in_domain_dom x st : in_domain x st -> dom x st.
+Lemma in_domain_wide_dom x st : in_domain_wide x st -> dom x st.
 Proof.
-  unfold in_domain, dom, lines_ok. rewrite split_lines_sl. tauto.
+  unfold in_domain_wide, dom, lines_ok. rewrite split_lines_sl. tauto.
+Qed.
+
+Lemma in_domain_wide_of x st : in_domain x st -> in_domain_wide x st.
+Proof.
+  unfold in_domain, in_domain_wide, line_ok. intros (A & B & C & D). csplit; auto. lia.
 Qed.
 
 Lemma emit_ctx x b : emit (mkoctx (labels x) (keepdom x) (host x) b) = emit x.
 Proof. reflexivity. Qed.
 
-Lemma calls_are_records : forall x s, script_ok s -> in_domain x (stream_of s) ->
+Lemma calls_are_records_wide : forall x s, script_ok s -> in_domain_wide x (stream_of s) ->
   snd (run_stream x s) = records (emit x) (stream_of s).
 Proof.
-  intros x s Hok D. apply in_domain_dom in D. unfold run_stream.
+  intros x s Hok D. apply in_domain_wide_dom in D. unfold run_stream.
   destruct (create CBUF_MINSIZE CBUF_MAXSIZE) as [c0|] eqn:Ec; [|discriminate Ec].
   pose proof (good_create c0 Ec) as G0. apply inv_create in Ec as (I0 & A0 & _).
   assert (N0 : nonl (abs c0)) by (rewrite A0; unfold nonl; cbn; tauto).
@@ -108,6 +114,10 @@ Proof.
   rewrite flush_tail_spec by (auto; rewrite A2; auto). rewrite A2, A1. reflexivity.
 Qed.
 
+Lemma calls_are_records : forall x s, script_ok s -> in_domain x (stream_of s) ->
+  snd (run_stream x s) = records (emit x) (stream_of s).
+Proof. intros x s Hok D. apply calls_are_records_wide; auto. apply in_domain_wide_of; auto. Qed.
+
 (* ---------- the label ---------- *)
 Lemma label_spec : forall keep h, (length h < N.to_nat LINEBUFSIZE)%nat ->
   label keep h = match h with
@@ -118,10 +128,10 @@ Proof.
 Qed.
 
 (* ---------- C05: the texts, labels aside, concatenate to the stream ---------- *)
-Lemma stream_identity : forall x s, script_ok s -> in_domain x (stream_of s) ->
+Lemma stream_identity_wide : forall x s, script_ok s -> in_domain_wide x (stream_of s) ->
   exists texts, snd (run_stream x s) = with_labels x texts /\ concat (map snd texts) = stream_of s.
 Proof.
-  intros x s Hok D. rewrite (calls_are_records x s Hok D). unfold records. rewrite split_lines_sl.
+  intros x s Hok D. rewrite (calls_are_records_wide x s Hok D). unfold records. rewrite split_lines_sl.
   pose proof (sl_concat (stream_of s)) as C. destruct (sl (stream_of s)) as [ls t]. cbn [fst snd] in C.
   pose proof (chunks_f_concat _ flush_k_pos (length t) t (le_n _)) as CC. fold (chunks (N.to_nat FLUSH_CHUNK - 1) t) in CC.
   exists (map (fun l => (true, l)) ls ++
@@ -133,3 +143,7 @@ Proof.
     destruct (chunks (N.to_nat FLUSH_CHUNK - 1) t) as [|p ps]; [reflexivity|].
     cbn [map fst snd concat]. rewrite map_map. cbn [snd]. rewrite map_id. reflexivity.
 Qed.
+
+Lemma stream_identity : forall x s, script_ok s -> in_domain x (stream_of s) ->
+  exists texts, snd (run_stream x s) = with_labels x texts /\ concat (map snd texts) = stream_of s.
+Proof. intros x s Hok D. apply stream_identity_wide; auto. apply in_domain_wide_of; auto. Qed.
